@@ -6,7 +6,7 @@ PID = "C02"
 RULE = ("patterns = base x operator sequence (all legal and illegal one- and two-operator sequences, 0 and 3-4 operators, "
         "'=>', '>=<=', '><', adjacent operators) x bound texts (empty, versions, text starting with '='); bases with several "
         "'-', non-ASCII, glob characters; names = {base, proper prefix, suffix-extended, case-changed, other} x {-v, no dash, "
-        "trailing '-'}; asked through Dewey and through Pattern; non-trivial = the pattern has >= 1 operator and the name has a '-'")
+        "trailing '-'}; asked through Dewey and through Pattern; plus EVERY string of length <= 4 (thorough 5) over 'p1<>=-.' as a pattern against a name panel; non-trivial = the pattern has >= 1 operator and the name has a '-'")
 FUNCTIONAL = True
 BOUNDS = ["", "1", "1.0", "2", "1.0nb1", "=1", "1alpha", "0", "10", "1.5", "é", "1-2"]
 
@@ -42,6 +42,22 @@ def generate(rng, tier):
             if "<" in p or ">" in p:
                 # for brace-free patterns with an operator the two matchers agree
                 cases.append(Case("pat.match", [enc(p), enc(nm)], meta={"p": p, "n": nm}))
+    # small scope, exhaustively: every string of length <= 4 (thorough: 5) over the characters Dewey::new looks at
+    import itertools
+    sigma = "p1<>=-."
+    panel = ["p-1", "p-1.1", "p-0", "p-", "p", "-1", "1-1", "p1-1", "pp-1", "p-1-1", ""]
+    maxlen = 4 if tier == "quick" else 5
+    cnt = 0
+    for ln in range(0, maxlen + 1):
+        for tup in itertools.product(sigma, repeat=ln):
+            cnt += 1
+            p = "".join(tup)
+            cases.append(Case("dewey.new", [enc(p)], tag="scope"))
+            for k in range(2):
+                nm = panel[(cnt + 4 * k) % len(panel)]
+                cases.append(Case("dewey.match", [enc(p), enc(nm)], meta={"p": p, "n": nm}, tag="scope"))
+                if "<" in p or ">" in p:
+                    cases.append(Case("pat.match", [enc(p), enc(nm)], meta={"p": p, "n": nm}, tag="scope"))
     return cases
 
 
